@@ -980,9 +980,13 @@ def run_case(case, root):
         ext = w.get("external")
         ext_path = spell_of(d, slink, ext["key"], ext.get("via", "direct")) if ext else None
 
+        key_of_real = {os.path.realpath(p): k for k, p in paths.items() if k != "LX"}
+
         def describe(p):
             ab = os.path.abspath(p)
             return {"name": names.get(ab), "path": names.path(ab), "raw": p,
+                    "real_key": key_of_real.get(os.path.realpath(p), "?"),
+                    "lexical_key": key_of_real.get(os.path.realpath(ab), "?"),
                     "modelable": os.path.realpath(p) == os.path.realpath(ab)}
 
         out["target"] = describe(target)
@@ -1058,6 +1062,11 @@ def run_case(case, root):
         nodes.append([names.path(os.path.join(d, "alias2")), ["link", names.path(os.path.join(d, "data", "sub"))]])
         nodes.append([names.path(slink), ["link", names.path(d)]])
         raw_before = {nm: raw_vars(paths[nm]) for nm in ("X", "Y", "E", "V")} if w["mode"] in ("a", "r+") else None
+        # which real file each interned name resolves to (independent of the model: os.path.realpath)
+        real_of = {}
+        for p, i in names.ids.items():
+            real_of[str(i)] = key_of_real.get(os.path.realpath(p), "?")
+        out["real_of"] = real_of
         err = do_write(arg, target, w, extra, ext_path)
         after = {nm: lstate(p) for nm, p in tracked.items()}
         out["error"] = err
@@ -1082,12 +1091,6 @@ def run_case(case, root):
                                 "before": json.dumps(a, sort_keys=True, default=str)[:300],
                                 "after": json.dumps(b, sort_keys=True, default=str)[:300]})
         out["inputs_changed"] = changed
-        # which real file each interned name resolves to (independent of the model: os.path.realpath)
-        real_of = {}
-        key_of_real = {os.path.realpath(p): k for k, p in paths.items() if k != "LX"}
-        for p, i in names.ids.items():
-            real_of[str(i)] = key_of_real.get(os.path.realpath(p), "?")
-        out["real_of"] = real_of
         out["spell"] = names.spell()
         if raw_before is not None:
             lost = {}
